@@ -1,9 +1,155 @@
 import Driver.Loop
+import Midgard.Model.SiteInfo
 
-/-! Driver for C18: placeholder until the model is written. -/
+/-!
+Driver for C18.  One query per line:
+
+  c18 consts
+  c18 norm <stations>
+  c18 q <kind> <source> <module|all> <get|hist> <stations> <date>
+
+  kind      snx | ssc
+  source    E (empty dict) | station ('|' station)*
+            snx station   keyhex:ANT:RCV:ECC:SID:EPO:EST
+                          ANT/RCV/ECC  - (block absent) | [] | start~stop~tag(,…)
+                          SID          - | tag
+                          EPO          - | [] | soln~start~stop~tag(,…)
+                          EST          - | [] | soln~pname~tag(,…)
+            ssc station   keyhex:tag:PV        PV  [] | soln~start~stop~tag(,…)
+            dates are integer microseconds after datetime.min, `-` is None
+  stations  T<hex>  (comma separated text)  |  L<hex>,<hex>…  |  L[]
+  date      - (no date) | last | integer
+-/
 namespace Driver.C18
+open Midgard.Proto Midgard.SiteInfo
+
+def strOfHex? (s : String) : Option Str := (decodeHex? s).map (fun t => t.toList.map Char.toNat)
+def hexOfStr (s : Str) : String := encodeHex (String.ofList (s.map Char.ofNat))
+
+def parseOptDate? (s : String) : Option (Option Date) := parseOpt? parseInt? s
+
+def parseItems? {α} (f : List String → Option α) (s : String) : Option (Option (List α)) :=
+  if s = "-" then some none
+  else if s = "[]" then some (some [])
+  else ((s.splitOn ",").mapM (fun it => f (it.splitOn "~"))).map some
+
+def parseRaw? : List String → Option Raw
+  | [a, b, t] => do
+    let a ← parseOptDate? a; let b ← parseOptDate? b; let t ← t.toNat?
+    pure ⟨a, b, t⟩
+  | _ => none
+
+def parseEpoch? : List String → Option Epoch
+  | [s, a, b, t] => do
+    let s ← s.toNat?; let r ← parseRaw? [a, b, t]
+    pure ⟨s, r⟩
+  | _ => none
+
+def parseEst? : List String → Option Est
+  | [s, p, t] => do
+    let s ← s.toNat?; let p ← p.toNat?; let t ← t.toNat?
+    pure ⟨s, p, t⟩
+  | _ => none
+
+def parseSnxStation? (s : String) : Option (Str × SnxStation) :=
+  match s.splitOn ":" with
+  | [k, ant, rcv, ecc, sid, epo, est] => do
+    let k ← strOfHex? k
+    let ant ← parseItems? parseRaw? ant
+    let rcv ← parseItems? parseRaw? rcv
+    let ecc ← parseItems? parseRaw? ecc
+    let sid ← parseOpt? String.toNat? sid
+    let epo ← parseItems? parseEpoch? epo
+    let est ← parseItems? parseEst? est
+    pure (k, ⟨ant, rcv, ecc, sid, epo, est⟩)
+  | _ => none
+
+def parseSscStation? (s : String) : Option (Str × SscStation) :=
+  match s.splitOn ":" with
+  | [k, tag, pv] => do
+    let k ← strOfHex? k
+    let tag ← tag.toNat?
+    let pv ← parseItems? (fun l => (parseEpoch? l).map (fun e => (e.soln, e.raw))) pv
+    let pv ← pv
+    pure (k, ⟨tag, pv⟩)
+  | _ => none
+
+def parseSource? (kind src : String) : Option Source :=
+  let sts := if src = "E" then [] else src.splitOn "|"
+  match kind with
+  | "snx" => (sts.mapM parseSnxStation?).map Source.snx
+  | "ssc" => (sts.mapM parseSscStation?).map Source.ssc
+  | _ => none
+
+def parseStations? (s : String) : Option Stations :=
+  if s.startsWith "T" then (strOfHex? (s.drop 1).toString).map Stations.text
+  else if s = "L[]" then some (.list [])
+  else if s.startsWith "L" then (((s.drop 1).toString.splitOn ",").mapM strOfHex?).map Stations.list
+  else none
+
+def parseDate? (s : String) : Option (Option DateQ) :=
+  if s = "-" then some none
+  else if s = "last" then some (some .last)
+  else (parseInt? s).map (fun d => some (.at d))
+
+def parseModule? : String → Option Module
+  | "antenna" => some .antenna | "eccentricity" => some .eccentricity
+  | "identifier" => some .identifier | "receiver" => some .receiver
+  | "site_coord" => some .siteCoord | _ => none
+
+def showModule : Module → String
+  | .antenna => "antenna" | .eccentricity => "eccentricity" | .identifier => "identifier"
+  | .receiver => "receiver" | .siteCoord => "site_coord"
+
+def showErr : Err → String
+  | .missing => "E:missing" | .key => "E:key" | .index => "E:index"
+
+def showEntry (e : Entry) : String :=
+  let p := if e.params.isEmpty then "" else
+    "{" ++ ",".intercalate (e.params.map (fun (a, b) => s!"{a}>{b}")) ++ "}"
+  s!"T{e.tag}{p}"
+
+def showVal : Val → String
+  | .none => "N"
+  | .entry e => showEntry e
+  | .ident t => s!"I{t}"
+  | .hist none => "HN"
+  | .hist (some l) =>
+    "H[" ++ ",".intercalate (l.map (fun h => s!"{h.key.1}~{h.key.2}~{showEntry h.entry}")) ++ "]"
+
+def showDict {α} (f : α → String) (d : List (Str × α)) : String :=
+  if d.isEmpty then "{}" else ";".intercalate (d.map (fun (k, v) => s!"{hexOfStr k}={f v}"))
+
+def showMods (l : List (Module × Val)) : String :=
+  "/".intercalate (l.map (fun (m, v) => s!"{showModule m}:{showVal v}"))
 
 def handle : List String → Option String
+  | ["c18", "consts"] => some s!"{dmin} {dmax}"
+  | ["c18", "norm", st] => do
+    let st ← parseStations? st
+    pure (showList hexOfStr (normStations st))
+  | ["c18", "q", kind, src, md, op, st, date] => do
+    let src ← parseSource? kind src
+    let st ← parseStations? st
+    let date ← parseDate? date
+    match md, op with
+    | "all", "get" =>
+      match siteInfoGet src st date with
+      | .error e => pure (showErr e)
+      | .ok d => pure (showDict showMods d)
+    | "all", "hist" =>
+      match siteInfoGetHistory src st with
+      | .error e => pure (showErr e)
+      | .ok d => pure (showDict showMods d)
+    | _, _ =>
+      let m ← parseModule? md
+      let r ← match op with
+        | "get" => some (moduleGet m src st date)
+        | "hist" => some (moduleGetHistory m src st)
+        | _ => none
+      match r with
+      | .error e => pure (showErr e)
+      | .ok d => pure (showDict showVal d)
   | _ => none
 
 end Driver.C18
